@@ -153,8 +153,8 @@ func VP_C09_MapADT() {
 }
 
 // triangle pool for the mesh history harness: shared edge, exact duplicate
-// (different pointer), degenerate face, a face on the colliding / signed-zero
-// keys.
+// (different pointer), degenerate faces with every repeated-corner pattern, a
+// face on the colliding / signed-zero keys.
 func vpTrianglePool() []*Triangle {
 	pool := vpKeyPool()
 	a, b, c, d := XYZ(0, 0, 1), XYZ(1, 0, 1), XYZ(0, 1, 1), XYZ(1, 1, 1)
@@ -165,6 +165,8 @@ func vpTrianglePool() []*Triangle {
 		{a, a, d},
 		{pool[0], pool[1], pool[3]},
 		{pool[4], pool[1], c},
+		{a, d, d},
+		{d, a, d},
 	}
 }
 
@@ -186,10 +188,13 @@ func vpSameFaceSet(a, b []*Triangle) bool {
 	return true
 }
 
-// vpCheckMeshAgainstFaces compares every query of m with a mesh freshly built
-// from the expected face list.
+func vpHasVertex(f *Triangle, p Coord3D) bool {
+	return f[0] == p || f[1] == p || f[2] == p
+}
+
+// vpCheckMeshAgainstFaces compares every query of m with its definition over
+// the expected face list (computed by brute force, not by the mesh code).
 func vpCheckMeshAgainstFaces(m *Mesh, faces []*Triangle, pool []*Triangle) {
-	ref := NewMeshTriangles(faces)
 	vp.Assert(m.NumTriangles() == len(faces), "NumTriangles equals the number of current faces")
 	for _, t := range pool {
 		in := false
@@ -208,24 +213,67 @@ func vpCheckMeshAgainstFaces(m *Mesh, faces []*Triangle, pool []*Triangle) {
 		}
 	}
 	for p := range verts {
-		vp.Assert(vpSameFaceSet(m.Find(p), ref.Find(p)), "Find(vertex) equals that of a freshly built mesh")
+		var want []*Triangle
+		for _, f := range faces {
+			if vpHasVertex(f, p) {
+				want = append(want, f)
+			}
+		}
+		vp.Assert(vpSameFaceSet(m.Find(p), want), "Find(vertex) is exactly the faces at that vertex, each once")
 	}
 	for _, t := range pool {
-		vp.Assert(vpSameFaceSet(m.Find(t[0], t[1]), ref.Find(t[0], t[1])), "Find(edge) equals that of a freshly built mesh")
-		vp.Assert(vpSameFaceSet(m.Neighbors(t), ref.Neighbors(t)), "Neighbors equals that of a freshly built mesh")
+		var wantEdge, wantNb []*Triangle
+		for _, f := range faces {
+			if vpHasVertex(f, t[0]) && vpHasVertex(f, t[1]) {
+				wantEdge = append(wantEdge, f)
+			}
+			shared := 0
+			for _, p := range t {
+				if vpHasVertex(f, p) {
+					shared++
+				}
+			}
+			if f != t && shared >= 2 {
+				wantNb = append(wantNb, f)
+			}
+		}
+		vp.Assert(vpSameFaceSet(m.Find(t[0], t[1]), wantEdge), "Find(edge) is exactly the faces containing both points, each once")
+		vp.Assert(vpSameFaceSet(m.Neighbors(t), wantNb), "Neighbors is exactly the other faces sharing two corners")
 	}
-	mv, rv := m.VertexSlice(), ref.VertexSlice()
-	vp.Assert(len(mv) == len(rv), "VertexSlice has as many vertices as a freshly built mesh")
+	var wantVerts []Coord3D
+	for _, f := range faces {
+		for _, p := range f {
+			dup := false
+			for _, q := range wantVerts {
+				if q == p {
+					dup = true
+				}
+			}
+			if !dup {
+				wantVerts = append(wantVerts, p)
+			}
+		}
+	}
+	mv := m.VertexSlice()
+	vp.Assert(len(mv) == len(wantVerts), "VertexSlice has one entry per distinct vertex")
 	for _, v := range mv {
 		found := false
-		for _, w := range rv {
+		for _, w := range wantVerts {
 			if v == w {
 				found = true
 			}
 		}
 		vp.Assert(found, "VertexSlice lists vertices of the current faces only")
 	}
-	vp.Assert(m.Min() == ref.Min() && m.Max() == ref.Max(), "Min/Max equal those of a freshly built mesh")
+	if len(faces) > 0 {
+		mn, mx := faces[0][0], faces[0][0]
+		for _, f := range faces {
+			for _, p := range f {
+				mn, mx = mn.Min(p), mx.Max(p)
+			}
+		}
+		vp.Assert(m.Min() == mn && m.Max() == mx, "Min/Max are the extremes over the current faces")
+	}
 }
 
 // VP_C09_MeshHistory: after every op of every history of the given length
